@@ -47,6 +47,11 @@ Added for the warm-up / recording rule (spec `lean/gen/warmup.json`):
 * `for x in xs:` with loop-carried locals (state = the kept locals assigned in the body, and the trace);
   `x -= e` / `x += e`, `a - b`, `a + b`, `<`, `<=`, `>`, `>=` on ints (`V.sub`, `V.add`, `V.lt`, ...: `none`
   on anything that is not an int or bool); the conditional expression `a if c else b`.
+* more for `trace` units (failure classification, spec `lean/gen/failure_class.json`): `return <text>` as a final
+  event (`return_events`), `obj.attr = e` as an event (`attr_events`), events that keep only some of their
+  arguments (`keep`), a tuple assignment from a declared call whose targets become inputs (`assigned_inputs`),
+  nested function definitions bound to ignored names, inputs that are module-level integer constants of another
+  source file (`const`), `assert`.
 * unit kind `call_arg`: the n-th argument of the one call of a given method inside a function, as a function
   of the declared inputs (the reload rule inside `_parse_data_line`).
 """
@@ -425,12 +430,42 @@ class Fn(object):
             return ast.unparse(s.value.func) in self.tr['ignore_calls']
         if isinstance(s, ast.If):
             return all(self.droppable(x) for x in list(s.body) + list(s.orelse))
+        if isinstance(s, ast.FunctionDef):
+            return s.name in self.tr['ignore_locals']
         return False
 
     def trace_stmt(self, s, rest, env, ret, self_ty, indent):
         pad = '  ' * indent
         if self.droppable(s):
             return self.block(rest, env, ret, self_ty, indent)
+        if isinstance(s, ast.Assign) and len(s.targets) == 1 and isinstance(s.targets[0], ast.Tuple) \
+                and isinstance(s.value, ast.Call) and ast.unparse(s.value.func) in self.tr.get('assigned_inputs', {}):
+            # (a, b, _) = declared_call(...): the targets are inputs of the translation
+            decl = self.tr['assigned_inputs'][ast.unparse(s.value.func)]
+            names = [t.id if isinstance(t, ast.Name) else None for t in s.targets[0].elts]
+            if names != list(decl):
+                raise Unsupported('targets of %s are %s, spec says %s' % (ast.unparse(s.value.func), names, list(decl)))
+            env2 = dict(env)
+            for n_, ty_ in decl.items():
+                if ty_ != 'Opaque':
+                    env2[n_] = ty_
+            return self.block(rest, env2, ret, self_ty, indent)
+        if isinstance(s, ast.Assign) and len(s.targets) == 1 and isinstance(s.targets[0], ast.Attribute) \
+                and ast.unparse(s.targets[0]) in self.tr.get('attr_events', {}):
+            ev = self.tr['attr_events'][ast.unparse(s.targets[0])]
+            if isinstance(s.value, ast.Constant) and isinstance(s.value.value, bool):
+                b_, t_, ty_ = [], 'true' if s.value.value else 'false', 'Bool'
+            else:
+                b_, t_, ty_ = self.expr(s.value, env)
+            if ty_ != ev['type']:
+                raise Unsupported('%s is assigned a %s' % (ast.unparse(s.targets[0]), ty_))
+            body = pad + 'let trace := trace ++ [Event.%s %s]\n' % (ev['name'], t_) + self.block(rest, env, ret, self_ty, indent)
+            return self.wrap(b_, body, pad)
+        if isinstance(s, ast.Return) and s.value is not None and ast.unparse(s.value) in self.tr.get('return_events', {}):
+            if self.in_loop:
+                raise Unsupported('return inside a loop')
+            return pad + 'let trace := trace ++ [Event.%s]\n' % self.tr['return_events'][ast.unparse(s.value)] + \
+                pad + 'some trace'
         if isinstance(s, ast.If) and self.reads_ignored(s.test):
             raise Unsupported('an `if` that tests an ignored name contains a kept statement')
         if isinstance(s, (ast.Continue, ast.Break)):
@@ -449,6 +484,10 @@ class Fn(object):
             ev = self.tr['events'].get(fn)
             if ev is not None:
                 given = ([s.value.func.value] if ev.get('receiver') else []) + list(s.value.args)
+                if ev.get('keep') is not None:
+                    if s.value.keywords or max(ev['keep'] + [-1]) >= len(given):
+                        raise Unsupported('event %s: arguments' % fn)
+                    given = [given[k_] for k_ in ev['keep']]
                 if s.value.keywords or len(given) != len(ev['args']):
                     raise Unsupported('event %s: arguments' % fn)
                 binds, terms = [], []
@@ -799,7 +838,11 @@ def translate(spec, repo):
         out.append('/-- the calls that are kept as events, in the order they happen -/')
         out.append('inductive Event where')
         for ev in spec['events']:
-            events[ev['call']] = {'name': ev['name'], 'args': list(ev['args']), 'receiver': ev.get('receiver', False)}
+            if 'call' not in ev:                          # attribute / return events: only the constructor
+                out.append('  | %s %s' % (ev['name'], ' '.join('(a%d : %s)' % (k, lean_ty_atom(t)) for k, t in enumerate(ev.get('args', [])))))
+                continue
+            events[ev['call']] = {'name': ev['name'], 'args': list(ev['args']), 'receiver': ev.get('receiver', False),
+                                  'keep': ev.get('keep')}
             out.append('  | %s %s' % (ev['name'], ' '.join('(a%d : %s)' % (k, lean_ty_atom(t)) for k, t in enumerate(ev['args']))))
         out.append('deriving Repr, DecidableEq')
         out.append('')
@@ -808,7 +851,21 @@ def translate(spec, repo):
         """declared readings of the environment: source text -> (term, type); those with a `param` become parameters"""
         table, params = {}, []
         for text, d in u.get('inputs', {}).items():
-            if 'param' in d:
+            if 'const' in d:
+                # a module-level integer constant of another source file, read from the current source
+                val = None
+                for n_ in tree(d['const']['source']).body:
+                    if isinstance(n_, ast.Assign) and len(n_.targets) == 1 and isinstance(n_.targets[0], ast.Name) \
+                            and n_.targets[0].id == d['const']['name']:
+                        v_ = n_.value
+                        if isinstance(v_, ast.UnaryOp) and isinstance(v_.op, ast.USub) and isinstance(v_.operand, ast.Constant):
+                            val = -v_.operand.value
+                        elif isinstance(v_, ast.Constant):
+                            val = v_.value
+                if not isinstance(val, int) or isinstance(val, bool):
+                    raise Unsupported('constant %s not found as an integer in %s' % (d['const']['name'], d['const']['source']))
+                table[text] = ('(V.int %d)' % val if val >= 0 else '(V.int (-%d))' % -val, 'V')
+            elif 'param' in d:
                 table[text] = (lean_name(d['param']), d['type'])
                 if (d['param'], d['type']) not in params:
                     params.append((d['param'], d['type']))
@@ -940,8 +997,16 @@ def translate(spec, repo):
             tr = Fn(spec, records, funcs, dict(ctx, cls=u.get('class'), inputs=table, trace={
                 'events': events, 'ignore_locals': set(u.get('ignore_locals', [])),
                 'ignore_calls': set(u.get('ignore_calls', [])), 'ignore_fields': set(u.get('ignore_fields', [])),
+                'assigned_inputs': u.get('assigned_inputs', {}), 'attr_events': u.get('attr_events', {}),
+                'return_events': u.get('return_events', {}),
                 'units': dict((k_, v_) for k_, v_ in trace_units.items() if k_ != 'self.' + u['name'])}))
             env = dict((p_, t) for p_, t in u['params'].items() if t != 'Opaque')
+            for decl in u.get('assigned_inputs', {}).values():
+                for n_, ty_ in decl.items():
+                    if ty_ != 'Opaque' and n_ is not None:
+                        iparams.append((n_, ty_))
+                    elif n_ is not None:
+                        tr.tr['ignore_locals'].add(n_)
             tr.fall = 'some trace'
             body = tr.block(fn.body, env, 'List Event', None, 1)
             sig = ' '.join(['(%s : %s)' % (lean_name(n_), lean_ty(t)) for (n_, t) in iparams] +
